@@ -550,3 +550,128 @@ def rule_lineno_reset(prog, rep, rid='B7'):
             if bad:
                 rep.violation(rid, f, cn.line, 'lineno-reset', '%s starts the line parser without resetting the line counter: a second '
                               'parse through the same object reports line numbers that include the lines of the earlier files' % f.name)
+
+
+def rule_number_classifier_closed(prog, rep, rid='B8'):
+    """The number classifier of the Apache-style parser implements the documented grammar (-?digits[.digits]) itself; the C
+    library's converters accept a wider language (signs, exponents, hex, inf/nan, leading blanks, trailing dot), so a
+    classifier that decides through them accepts files the declarations forbid."""
+    rep.rule(rid, 'the number classifier behind the INT/FLOAT argument check does not decide through the C library\'s number converters '
+                  '(strtol/strtod/atoi/atof/sscanf accept a wider language than the documented one)')
+    unit = 'src/extensions/qaconf.c'
+    prog.unit(unit)
+    wide = {'strtol', 'strtoll', 'strtoul', 'strtoull', 'strtod', 'strtof', 'strtold', 'atoi', 'atol', 'atoll', 'atof', 'sscanf',
+            '__isoc99_sscanf'}
+    # the classifier by role: a static int function of one string parameter whose returns are the constants 0, 1 and 2
+    for f in sorted(prog.funcs_in(unit), key=lambda x: x.line or 0):
+        if f.body is None or not f.static or len(f.params) != 1:
+            continue
+        rets = {int_value(children(r.ast)[0]) for r in f.cfg.returns() if children(r.ast)}
+        if not ({1, 2} <= rets) or None in rets and len(rets) == 1:
+            continue
+        rep.instance(rid)
+        # transitive callees inside the unit
+        seen, work, hit = {f.name}, [f], None
+        while work and hit is None:
+            g = work.pop()
+            for x in walk(g.body):
+                if x.get('kind') == 'CallExpr':
+                    nm = prog.callee_name(x)
+                    if nm in wide:
+                        hit = (nm, x.get('_line'), g)
+                        break
+                    h = prog.resolve_name(g.unit, nm) if nm else None
+                    if h is not None and getattr(h, 'body', None) is not None and h.name not in seen:
+                        seen.add(h.name)
+                        work.append(h)
+        rep.oblige(rid, hit is None, {'classifier': f.name})
+        if hit is not None:
+            rep.violation(rid, hit[2], hit[1], 'wide:%s' % hit[0],
+                          '%s decides through %s(), which also accepts signs, exponents, hexadecimal, inf/nan, leading blanks or a trailing '
+                          'dot: arguments the INT/FLOAT declaration forbids are accepted' % (f.name, hit[0]))
+
+
+def rule_expansion_untouched(prog, rep, rid='B9'):
+    """INI-style parser: blanks are stripped from what the file says BEFORE references are expanded; what the expansion
+    delivers (values of other keys, environment variables, command output) is stored as it is.  The result of the expansion
+    routine therefore reaches the table's put without passing through another transforming call, and the raw value passed a
+    trim on every path before the expansion."""
+    rep.rule(rid, 'the raw value is trimmed before ${} expansion and the expansion result reaches the table\'s put unmodified')
+    unit = 'src/extensions/qconfig.c'
+    prog.unit(unit)
+    from .expr import var_init, access_path
+    for f in sorted(prog.funcs_in(unit), key=lambda x: x.line or 0):
+        if f.body is None:
+            continue
+        cfg = f.cfg
+        for n in cfg.nodes:
+            if n.id not in cfg.reachable or not isinstance(n.ast, dict) or n.kind == 'macro':
+                continue
+            for x in walk(n.ast):
+                if x.get('kind') != 'CallExpr' or prog.callee_name(x) != '_parsestr' or f.name == '_parsestr':
+                    continue
+                rep.instance(rid)
+                why = None
+                # (a) the result is bound directly to a variable
+                res = None
+                if n.ast.get('kind') == 'VarDecl' and var_init(n.ast) is not None and strip(var_init(n.ast)) is x:
+                    res = n.ast.get('name')
+                else:
+                    for y in walk(n.ast):
+                        if y.get('kind') == 'BinaryOperator' and y.get('opcode') == '=' and strip(children(y)[1]) is x:
+                            res = canon(children(y)[0])
+                if res is None:
+                    why = 'the expansion result is handed to another call before it is stored (%s)' % canon(n.ast)[:60]
+                # (b) no transforming call on the result before the put
+                if why is None:
+                    seen, work = set(), [s for (s, _l) in n.succs]
+                    while work and why is None:
+                        m = work.pop()
+                        if m.id in seen or m is cfg.exit or not isinstance(m.ast, dict):
+                            if m.id not in seen and m is not cfg.exit:
+                                seen.add(m.id)
+                                work += [s for (s, _l) in m.succs]
+                            continue
+                        seen.add(m.id)
+                        stop = False
+                        for y in walk(m.ast):
+                            if y.get('kind') == 'CallExpr' and any(access_path(a) == res for a in children(y)[1:]):
+                                c0 = strip(children(y)[0])
+                                nm = prog.callee_name(y)
+                                if c0.get('kind') == 'MemberExpr' and c0.get('name', '').startswith('put'):
+                                    stop = True
+                                elif nm == 'free':
+                                    stop = True
+                                elif nm not in ('strlen', 'DEBUG'):
+                                    why = 'the expansion result passes through %s() before it is stored' % (nm or canon(c0))
+                        if not stop:
+                            work += [s for (s, _l) in m.succs]
+                # (c) the raw value was trimmed before the expansion on every path since it was split off
+                if why is None:
+                    arg = access_path(children(x)[2]) if len(children(x)) > 2 else None
+                    if arg:
+                        # backwards: from the definition of arg to the call, a qstrtrim(arg) on every path
+                        defs = [m for m in cfg.nodes if m.id in cfg.reachable and isinstance(m.ast, dict) and m.kind != 'macro' and (
+                            (m.ast.get('kind') == 'VarDecl' and m.ast.get('name') == arg))]
+                        for d in defs:
+                            seen, work, bad = set(), [s for (s, _l) in d.succs], False
+                            while work and not bad:
+                                m = work.pop()
+                                if m.id in seen:
+                                    continue
+                                seen.add(m.id)
+                                if m is n:
+                                    bad = True
+                                    break
+                                if isinstance(m.ast, dict) and m.kind != 'macro' and any(
+                                        y.get('kind') == 'CallExpr' and prog.callee_name(y) in ('qstrtrim',) and
+                                        any(access_path(a) == arg for a in children(y)[1:]) for y in walk(m.ast)):
+                                    continue
+                                work += [s for (s, _l) in m.succs]
+                            if bad:
+                                why = 'the raw value %s reaches the expansion without having been trimmed' % arg
+                rep.oblige(rid, why is None, {'function': f.name, 'expansion_call_line': x.get('_line')})
+                if why is not None:
+                    rep.violation(rid, f, x.get('_line'), 'expansion-order',
+                                  '%s: %s - blanks that belong to a substituted value (an environment variable, another key) are lost or '
+                                  'blanks written in the file survive' % (f.name, why))
